@@ -205,7 +205,7 @@ def engine_r_t(kw, n_inputs, chunks, pool_stride=1):
         cmd = [exe, "emit-crate", "--repo", kw["repo"], *_pool_files(kw), "--root", str(seed), "--from", "0",
                "--n", str(n_inputs), "--out", files[c], "--no-user-compile-error", "--with-pool",
                "--pool-stride", str(pool_stride), "--pool-offset", str(seed % pool_stride),
-               "--no-native", "--shard", f"{c}/{chunks}"]
+               "--no-native", "--shard", f"{c}/{chunks}", "--max-tokens", "700"]
         r = subprocess.run(cmd, env={"PATH": "/usr/bin:/bin"}, capture_output=True, text=True)
         if r.returncode != 0:
             raise HarnessError(f"emit-crate failed: {r.stderr[-2000:]}")
